@@ -91,13 +91,14 @@ func (r *runner) run(cmd *cobra.Command, args []string) error {
 		if err != nil {
 			return err
 		}
+		a = a.Round(2)
 		if a.IsZero() {
 			continue
 		}
 		j.Add(&model.Price{
 			Date:      d,
 			Commodity: account,
-			Price:     a.Round(2),
+			Price:     a,
 			Target:    commodity,
 		})
 	}
